@@ -32,6 +32,11 @@ type RTRetryCallback func(data interface{}) error
 // Fail being called.
 var ErrNoMoreRetries = errors.New("no more retries")
 
+// ErrRetryPostponed can be returned by the retry callback if the retry cannot
+// be done now (e.g. the recipient is known to be unreachable at the moment).
+// The retry is not counted and the callback is called again after retryDelay.
+var ErrRetryPostponed = errors.New("retry postponed")
+
 // NewRetryTransaction creates a new RetryTransaction.
 //
 // In each transaction step, if retryDelay time passes without Proceed, Success,
@@ -119,6 +124,11 @@ func (t *RetryTransaction) timeout() {
 		return
 	}
 	if err := t.retryCallback(t.Data); err != nil {
+		if err == ErrRetryPostponed {
+			t.retryNum--
+			t.restartTimer()
+			return
+		}
 		t.stopTimer()
 		t.TransactionBase.Fail(err)
 		return
